@@ -3,8 +3,10 @@ package main
 import (
 	"context"
 	"fmt"
+	"github.com/spikeekips/mitum/util/valuehash"
 	"sort"
 	"strings"
+	"time"
 
 	"github.com/spikeekips/mitum/base"
 	"github.com/spikeekips/mitum/isaac"
@@ -339,6 +341,313 @@ func runC23(c *Ctx) error {
 		if hi%100 == 0 {
 			c.Sample(map[string]string{"history": strings.Join(toks, " "), "results": strings.Join(outs, " ")})
 		}
+	}
+	return nil
+}
+
+// ---------------------------------------------------------------- C24
+
+// gateBallot wraps a real ballot; its MarshalJSON (called by SetBallot between Exists and Put)
+// waits until `want` marshals are in flight or the timeout passes.
+type c24gate struct {
+	ch      chan struct{}
+	arrived chan struct{}
+}
+
+type gateBallot struct {
+	base.Ballot
+	g *c24gate
+}
+
+func (b gateBallot) MarshalJSON() ([]byte, error) {
+	b.g.arrived <- struct{}{}
+	<-b.g.ch
+	return util.MarshalJSON(b.Ballot)
+}
+
+type gateProposal struct {
+	base.ProposalSignFact
+	g *c24gate
+}
+
+func (p gateProposal) MarshalJSON() ([]byte, error) {
+	p.g.arrived <- struct{}{}
+	<-p.g.ch
+	return util.MarshalJSON(p.ProposalSignFact)
+}
+
+func init() { register("C24", runC24) }
+
+func runC24(c *Ctx) error {
+	env, err := newPoolEnv()
+	if err != nil {
+		return err
+	}
+	nodes := []base.LocalNode{base.RandomLocalNode(), base.RandomLocalNode(), base.RandomLocalNode()}
+	prevs := []util.Hash{valuehash.RandomSHA256(), valuehash.RandomSHA256()}
+	nhist := 150
+	if c.Thorough() {
+		nhist = 4000
+	}
+	for hi := 0; hi < nhist; hi++ {
+		pool, err := env.newPool()
+		if err != nil {
+			return err
+		}
+		dP, dB := pool.VerifCleanDeeps()
+		ballotID := map[string]int{} // node+facthash -> id
+		propID := map[string]int{}   // signature -> id
+		factID := map[string]int{}
+		var facts []isaac.ProposalFact
+		nextB, nextP := 1, 1
+		var toks, outs []string
+		nsteps := 4 + c.Intn(16)
+		baseH := 10 + c.Intn(3)
+		for st := 0; st < nsteps; st++ {
+			h := baseH + c.Intn(7)
+			if c.Chance(1, 10) {
+				h = 1 + c.Intn(3) // very low heights: below the cleanup guard
+			}
+			r := c.Intn(2)
+			point := base.NewPoint(base.Height(h), base.Round(uint64(r)))
+			switch k := c.Intn(20); {
+			case k < 6: // SetBallot
+				acc := c.Bool()
+				signer := nodes[c.Intn(len(nodes))]
+				var bl base.Ballot
+				sc := false
+				if acc {
+					b, err := hACCEPTBallot(point, signer, nodes[:1], valuehash.RandomSHA256(), valuehash.RandomSHA256())
+					if err != nil {
+						return err
+					}
+					bl = b
+				} else {
+					b, err := hINITBallot(point, signer, nodes[:1], prevs[c.Intn(2)], valuehash.RandomSHA256())
+					if err != nil {
+						return err
+					}
+					bl = b
+				}
+				id := nextB
+				nextB++
+				ballotID[bl.SignFact().Node().String()+bl.SignFact().Fact().Hash().String()] = id
+				ok, err := pool.SetBallot(bl)
+				if err != nil {
+					return err
+				}
+				toks = append(toks, fmt.Sprintf("sb:%d.%d.%s.%s:%d", h, r, b01(acc), b01(sc), id))
+				outs = append(outs, b01(ok))
+			case k < 10: // Ballot lookup
+				acc := c.Bool()
+				stage := base.StageINIT
+				if acc {
+					stage = base.StageACCEPT
+				}
+				bl, found, err := pool.Ballot(point, stage, false)
+				if err != nil {
+					return err
+				}
+				res := "none"
+				if found {
+					res = fmt.Sprint(ballotID[bl.SignFact().Node().String()+bl.SignFact().Fact().Hash().String()])
+				}
+				toks = append(toks, fmt.Sprintf("gb:%d.%d.%s.0", h, r, b01(acc)))
+				outs = append(outs, res)
+			case k < 14: // SetProposal: new fact, or an existing fact re-signed
+				pi := c.Intn(len(nodes))
+				pv := c.Intn(2)
+				var pr isaac.ProposalSignFact
+				var fid int
+				if len(facts) > 0 && c.Chance(1, 4) {
+					fid = 1 + c.Intn(len(facts))
+					f := facts[fid-1]
+					for i := range nodes {
+						if nodes[i].Address().Equal(f.Proposer()) {
+							pi = i
+						}
+					}
+					sf := isaac.NewProposalSignFact(f)
+					if err := sf.Sign(nodes[pi].Privatekey(), hNetworkID); err != nil {
+						return err
+					}
+					pr = sf
+				} else {
+					p, err := hProposal(point, nodes[pi], prevs[pv], [][2]util.Hash{{valuehash.RandomSHA256(), valuehash.RandomSHA256()}})
+					if err != nil {
+						return err
+					}
+					pr = p
+					facts = append(facts, p.Fact().(isaac.ProposalFact))
+					fid = len(facts)
+					factID[p.Fact().Hash().String()] = fid
+				}
+				f := facts[fid-1]
+				pvi := 0
+				if f.PreviousBlock().Equal(prevs[1]) {
+					pvi = 1
+				}
+				pidx := 0
+				for i := range nodes {
+					if nodes[i].Address().Equal(f.Proposer()) {
+						pidx = i
+					}
+				}
+				// a re-signed proposal made within the same millisecond is byte-identical
+				// (deterministic signature over the same signedAt): same object, same id
+				id, known := propID[string(pr.Signs()[0].Signature())]
+				if !known {
+					id = nextP
+					nextP++
+					propID[string(pr.Signs()[0].Signature())] = id
+				}
+				ok, err := pool.SetProposal(pr)
+				if err != nil {
+					return err
+				}
+				toks = append(toks, fmt.Sprintf("sp:%d:%d.%d.%d.%d:%d", fid, f.Point().Height(), f.Point().Round(), pidx, pvi, id))
+				outs = append(outs, b01(ok))
+			case k < 16 && len(facts) > 0: // Proposal by hash
+				fid := 1 + c.Intn(len(facts))
+				pr, found, err := pool.Proposal(facts[fid-1].Hash())
+				if err != nil {
+					return err
+				}
+				res := "none"
+				if found {
+					res = fmt.Sprint(propID[string(pr.Signs()[0].Signature())])
+				}
+				toks = append(toks, fmt.Sprintf("gp:%d", fid))
+				outs = append(outs, res)
+			case k < 18: // ProposalByPoint
+				pi := c.Intn(len(nodes))
+				pv := c.Intn(2)
+				pr, found, err := pool.ProposalByPoint(point, nodes[pi].Address(), prevs[pv])
+				if err != nil {
+					return err
+				}
+				res := "none"
+				if found {
+					res = fmt.Sprint(propID[string(pr.Signs()[0].Signature())])
+					f := pr.ProposalFact()
+					if !f.Point().Equal(point) || !f.Proposer().Equal(nodes[pi].Address()) || !f.PreviousBlock().Equal(prevs[pv]) {
+						c.Violation("C24:lookup-by-point-wrong-triple", strings.Join(toks, " "), map[string]interface{}{"history": toks})
+					}
+				}
+				toks = append(toks, fmt.Sprintf("gt:%d.%d.%d.%d", h, r, pi, pv))
+				outs = append(outs, res)
+			case k == 18:
+				if _, err := pool.VerifCleanBallots(); err != nil {
+					return err
+				}
+				toks = append(toks, fmt.Sprintf("cb:%d", dB))
+				outs = append(outs, "ok")
+			default:
+				if _, err := pool.VerifCleanProposals(); err != nil {
+					return err
+				}
+				toks = append(toks, fmt.Sprintf("cp:%d", dP))
+				outs = append(outs, "ok")
+			}
+		}
+		_ = pool.Close()
+		c.Case("seq "+strings.Join(toks, " "), strings.Join(outs, " "))
+		if nextB > 2 && nextP > 2 {
+			c.Nontrivial(strings.Join(toks, " "))
+		}
+		if hi%50 == 0 {
+			c.Sample(map[string]string{"history": strings.Join(toks, " "), "results": strings.Join(outs, " ")})
+		}
+	}
+	// forced interleaving: two writers of one key, both held inside MarshalJSON (between Exists and Put)
+	rounds := 6
+	if c.Thorough() {
+		rounds = 60
+	}
+	for i := 0; i < rounds; i++ {
+		pool, err := env.newPool()
+		if err != nil {
+			return err
+		}
+		point := base.NewPoint(base.Height(33+i), 0)
+		g := &c24gate{ch: make(chan struct{}), arrived: make(chan struct{}, 4)}
+		b1, err := hINITBallot(point, nodes[0], nodes[:1], prevs[0], valuehash.RandomSHA256())
+		if err != nil {
+			return err
+		}
+		b2, err := hINITBallot(point, nodes[1], nodes[:1], prevs[1], valuehash.RandomSHA256())
+		if err != nil {
+			return err
+		}
+		res := make(chan bool, 2)
+		for _, b := range []base.Ballot{gateBallot{b1, g}, gateBallot{b2, g}} {
+			go func(b base.Ballot) {
+				ok, _ := pool.SetBallot(b)
+				res <- ok
+			}(b)
+		}
+		// wait until both are inside MarshalJSON, or 150ms (when a lock serialises them only one can be)
+		n := 0
+		tm := time.After(150 * time.Millisecond)
+	wait:
+		for n < 2 {
+			select {
+			case <-g.arrived:
+				n++
+			case <-tm:
+				break wait
+			}
+		}
+		close(g.ch)
+		go func() { // drain late arrivals
+			for range g.arrived {
+			}
+		}()
+		r1, r2 := <-res, <-res
+		c.Eval(1)
+		c.Count("gated-setballot", fmt.Sprintf("both-inside-window=%v winners=%d", n == 2, map[bool]int{true: 1}[r1]+map[bool]int{true: 1}[r2]))
+		if r1 && r2 {
+			c.Violation("C24:setballot-race-two-winners", "two concurrent SetBallot calls for one stage point both returned true (both passed Exists before either Put)",
+				map[string]interface{}{"point": point.String(), "forced": "MarshalJSON gate between Exists and Put"})
+		}
+		// same for proposals of one fact
+		g2 := &c24gate{ch: make(chan struct{}), arrived: make(chan struct{}, 4)}
+		fact := isaac.NewProposalFact(point, nodes[0].Address(), prevs[0], nil)
+		mk := func() isaac.ProposalSignFact {
+			sf := isaac.NewProposalSignFact(fact)
+			_ = sf.Sign(nodes[0].Privatekey(), hNetworkID)
+			return sf
+		}
+		res2 := make(chan bool, 2)
+		for _, p := range []base.ProposalSignFact{gateProposal{mk(), g2}, gateProposal{mk(), g2}} {
+			go func(p base.ProposalSignFact) {
+				ok, _ := pool.SetProposal(p)
+				res2 <- ok
+			}(p)
+		}
+		n = 0
+		tm = time.After(150 * time.Millisecond)
+	wait2:
+		for n < 2 {
+			select {
+			case <-g2.arrived:
+				n++
+			case <-tm:
+				break wait2
+			}
+		}
+		close(g2.ch)
+		go func() {
+			for range g2.arrived {
+			}
+		}()
+		p1, p2 := <-res2, <-res2
+		c.Eval(1)
+		if p1 && p2 {
+			c.Violation("C24:setproposal-race-two-winners", "two concurrent SetProposal calls for one fact both returned true",
+				map[string]interface{}{"point": point.String(), "forced": "MarshalJSON gate between Exists and Batch"})
+		}
+		_ = pool.Close()
 	}
 	return nil
 }
